@@ -167,15 +167,30 @@ func checkGbText(records [][]string, want []gbRec) string {
 	// k records in one file, with and without the final newline; with the 10-line flat-file header
 	for _, final := range []string{"\n", ""} {
 		multi := strings.Join(texts, "\n") + final
-		for _, mode := range []string{"multi", "flat"} {
+		for _, mode := range []string{"multi", "flat", "readmulti", "readflat", "readflatgz"} {
 			var gotm []poly.Sequence
 			var perr string
-			if mode == "multi" {
+			switch mode {
+			case "multi":
 				gotm, perr = safeGb(func() []poly.Sequence { return genbank.ParseMulti([]byte(multi)) })
-			} else {
+			case "flat":
 				gotm, perr = safeGb(func() []poly.Sequence { return genbank.ParseFlat([]byte(flatHeader + multi)) })
+			default: // the path-taking siblings
+				var p string
+				switch mode {
+				case "readmulti":
+					p = tmpFile([]byte(multi))
+					gotm, perr = safeGb(func() []poly.Sequence { return genbank.ReadMulti(p) })
+				case "readflat":
+					p = tmpFile([]byte(flatHeader + multi))
+					gotm, perr = safeGb(func() []poly.Sequence { return genbank.ReadFlat(p) })
+				default:
+					p = tmpFile(gz([]byte(flatHeader + multi)))
+					gotm, perr = safeGb(func() []poly.Sequence { return genbank.ReadFlatGz(p) })
+				}
+				os.Remove(p)
 			}
-			name := map[string]string{"multi": "genbank.ParseMulti", "flat": "genbank.ParseFlat"}[mode]
+			name := map[string]string{"multi": "genbank.ParseMulti", "flat": "genbank.ParseFlat", "readmulti": "genbank.ReadMulti", "readflat": "genbank.ReadFlat", "readflatgz": "genbank.ReadFlatGz"}[mode]
 			if final == "" {
 				name += " (file without final newline)"
 			}
